@@ -94,7 +94,20 @@ def rule_atomic(ctx: Ctx) -> None:  # noqa: C901, PLR0915
     dest = aw.param_names()[0]
     opens = [w for w in walk_no_nested(aw.node) if isinstance(w, ast.With) and any(isinstance(i.context_expr, ast.Call) and isinstance(i.context_expr.func, ast.Attribute) and i.context_expr.func.attr == "open" for i in w.items)
              and any(isinstance(y, ast.Yield) for y in ast.walk(w))]
+    # temporary files from the tempfile module live in the system temp directory unless `dir=` says otherwise: a rename from
+    # there to the run folder crosses file systems (fails, or - with shutil.move - degrades to a copy in place over the final name)
+    mk = [c for c in ast.walk(aw.node) if isinstance(c, ast.Call) and dotted(c.func).rsplit(".", 1)[-1] in ("mkstemp", "NamedTemporaryFile", "TemporaryFile", "mkdtemp", "SpooledTemporaryFile")]
+    for c in mk:
+        dirs = [k.value for k in c.keywords if k.arg == "dir"] + (list(c.args[2:3]) if dotted(c.func).endswith("mkstemp") else [])
+        beside = bool(dirs) and dest in {x.id for x in ast.walk(Defs(aw).resolve(dirs[0])) if isinstance(x, ast.Name)}
+        ctx.tri("1-atomic", aw, c, beside, not dirs, "the temporary file is created in the destination's directory",
+                f"`{norm(c)[:60]}` creates the temporary file in the system temp directory, not beside the destination: publishing it is a cross-device move (not atomic; a kill mid-copy leaves a torn file under the final name)",
+                "directory of the temporary file not recognised", key="tmp-sibling")
     if not opens:
+        pub = [c for c in ast.walk(aw.node) if isinstance(c, ast.Call) and dotted(c.func) in ("shutil.move", "shutil.copy", "shutil.copyfile", "shutil.copy2", "os.rename") and len(c.args) == 2 and norm(c.args[1]) == dest]
+        if pub:
+            ctx.add("1-atomic", aw, pub[0], False, f"`{norm(pub[0])[:50]}` is not an atomic replace of the destination (shutil.move copies in place when source and destination are on different file systems)", key="one-replace")
+            return
         ctx.add("1-atomic", aw, aw.node, None, "UNDECIDED: `with <tmp>.open(...)` around the yield not found", key="one-replace")
         return
     tmp = norm(next(i.context_expr.func.value for i in opens[0].items if isinstance(i.context_expr, ast.Call) and isinstance(i.context_expr.func, ast.Attribute) and i.context_expr.func.attr == "open"))
@@ -455,6 +468,42 @@ def rule_gate_like_with_like(ctx: Ctx) -> None:
     ctx.add("6-gate", create, gate, True, f"gate call found; {len(passed & stored)} value(s) are both compared and recorded, {n} of them rebound in create", key="gate-scan")
 
 
+def rule_gate_whole(ctx: Ctx) -> None:
+    """The gate compares WHOLE recorded values with whole new ones.  An operand that is a restriction of the value (only the
+    keys both runs share, a filtered comprehension, a set difference) lets two runs that differ outside the restriction pass as
+    'the same run': the stored outputs of the other run are then taken for this one's (stale values, nothing recomputed)."""
+    from ..flow import narrowings
+
+    P = ctx.prog
+    ri = P.cls("pipefunc.map._run_info.RunInfo")
+    create = ri.methods["create"]
+    load_q = ri.methods["load"].qualname
+    fns = [c for s_ in ctx.cg.sites.get(create.qualname, []) for c in s_.callees if c.qualname != load_q and load_q in ctx.cg.reachable(c.qualname)] or [create]
+    n = 0
+    for fn in {f.qualname: f for f in fns}.values():
+        defs = Defs(fn)
+        olds = {t.id for a in walk_no_nested(fn.node) if isinstance(a, ast.Assign) and isinstance(a.value, ast.Call) and any(c.qualname == load_q for c in ctx.cg.resolve_callable(fn, a.value.func))
+                for t in a.targets if isinstance(t, ast.Name)}
+        if not olds:
+            continue
+        for x in walk_no_nested(fn.node):
+            if isinstance(x, ast.Compare) and len(x.ops) == 1 and isinstance(x.ops[0], (ast.Eq, ast.NotEq)):
+                ops = [x.left, x.comparators[0]]
+            elif isinstance(x, ast.Call) and len(x.args) >= 2 and not isinstance(x.func, ast.Attribute):
+                ops = list(x.args[:2])
+            else:
+                continue
+            rs = [defs.resolve(o) for o in ops]
+            if not any(isinstance(y, ast.Attribute) and isinstance(y.value, ast.Name) and y.value.id in olds for r in ops for y in ast.walk(r)):
+                continue
+            n += 1
+            nar = [why for r in rs for _n, why in narrowings(r)]
+            ctx.add("6-gate", fn, x, not nar, f"`{norm(x)[:60]}` compares whole values" if not nar else
+                    f"`{norm(x)[:70]}` compares only a restriction of the recorded and the new value ({nar[0]}): two runs that differ outside it pass the cleanup=False gate as the same run and the stored outputs of the other run are returned (stale values)",
+                    key=f"gate-whole {norm(ops[1] if any(isinstance(y, ast.Name) and y.id in olds for y in ast.walk(ops[1])) else ops[0])[:40]}")
+    ctx.floor("6-gate.whole", n, 3)
+
+
 def rule_three_valued(ctx: Ctx) -> None:
     """`equal_dicts` answers True / False / None ("could not compare"); the gate resumes on None.  A local holding such an
     answer may be tested for truth only where None has been excluded - `not x` is also true for None, which turns "could not
@@ -534,7 +583,7 @@ def rule_loaded_is_marked(ctx: Ctx) -> None:
 
 
 def check(ctx: Ctx) -> None:
-    for rule in (rule_atomic, rule_guarded, rule_missing, rule_no_delete, rule_propagate, rule_gate_like_with_like, rule_three_valued, rule_loaded_is_marked):
+    for rule in (rule_atomic, rule_guarded, rule_missing, rule_no_delete, rule_propagate, rule_gate_like_with_like, rule_gate_whole, rule_three_valued, rule_loaded_is_marked):
         ctx.run(rule)
 
 
